@@ -429,7 +429,13 @@ LexEntry:
             break;
 
         case '?':
-            if (yychar_ == '?') {
+            // Only the trigraphs for brackets and braces are dealt with; any
+            // other `??' is two question marks.
+            if (yychar_ == '?'
+                    && (yytext_[1] == '('
+                            || yytext_[1] == ')'
+                            || yytext_[1] == '<'
+                            || yytext_[1] == '>')) {
                 yyinput();
                 if (yychar_ == '(') {
                     tk->syntaxK_ = SyntaxKind::OpenBracketToken;
